@@ -1,6 +1,6 @@
 (* C12 - quarter-turn rotations move values, vectors, validity and geometry together.
    Statements only; proofs in proofs/C12_rot.v, C12_cov.v, C12_field.v, C12_inplace.v. *)
-From DF Require Import Prelude Constants_gen FieldK NDArray Region Mesh Rotate90 C12_rot C12_cov C12_field C12_inplace C12_compose C12_compose2 C12_link C12_examples.
+From DF Require Import Prelude Constants_gen FieldK NDArray Region Mesh Rotate90 C12_rot C12_cov C12_field C12_inplace C12_compose C12_compose2 C12_link C12_examples C12_bc.
 Open Scope Q_scope.
 
 (* --- covariance, geometry: for every cell i of a well-formed mesh, the centre of cell
@@ -298,3 +298,49 @@ Theorem C12_covariance_point2index : forall ip m a b k ref m' R i1 i2 (sh : list
       nth j P 0 == nth j (rot_pt (fst (qturn k)) (snd (qturn k)) i1 i2 R (centre m (map Z.of_nat i))) 0.
 Proof. exact point2index_covariant. Qed.
 Print Assumptions C12_covariance_point2index.
+
+(* ====== periodicity (bc) turns with the cells; in-place == copy for mesh and field ====== *)
+
+(* the mesh record after the turn: region, n and bc (letters of the two in-plane axes exchanged for
+   odd k) - see C12_consistent_mesh_region; as a SET of periodic axes: a letter c is periodic after
+   the turn iff its preimage under the axis exchange was periodic before (odd k), unchanged for
+   even k; one-letter axis names (the only ones bc can hold) *)
+Theorem C12_periodicity_turns_with_cells : forall k ca cb s c, bc_keyword s = false ->
+  char_in c (rot_bc k (String ca EmptyString) (String cb EmptyString) s)
+  = char_in (if Z.odd k then sigma ca cb c else c) s.
+Proof. exact periodicity_turns. Qed.
+Print Assumptions C12_periodicity_turns_with_cells.
+
+Theorem C12_bc_keyword_kept : forall k a b s, bc_keyword s = true -> rot_bc k a b s = s.
+Proof. exact keyword_kept. Qed.
+Print Assumptions C12_bc_keyword_kept.
+
+(* k1 then k2 is k1 + k2 on bc (hence four turns / turn and reverse restore bc, with
+   C12_compose_n, C12_compose_units, C12_compose_region for the rest of the mesh record) *)
+Theorem C12_compose_bc : forall k1 k2 ca cb s,
+  let a := String ca EmptyString in let b := String cb EmptyString in
+  bc_keyword s = false -> bc_keyword (bc_swap a b s) = false ->
+  rot_bc k2 a b (rot_bc k1 a b s) = rot_bc (k1 + k2) a b s.
+Proof. exact rot_bc_add. Qed.
+Print Assumptions C12_compose_bc.
+
+Example C12_compose_bc_nonvacuous :
+  bc_keyword "zx" = false /\ bc_keyword (bc_swap "x" "y" "zx") = false /\
+  rot_bc 3 "x" "y" "zx" = "zy"%string /\ rot_bc 2 "x" "y" "zx" = "zx"%string /\
+  rot_bc (-1) "x" "y" "neumann" = "neumann"%string.
+Proof. repeat split; reflexivity. Qed.
+Print Assumptions C12_compose_bc_nonvacuous.
+
+(* the in-place form equals the copying form (whole mesh record incl. subregions and bc; whole
+   field): both read the default reference from the mesh as it is before the turn *)
+Theorem C12_inplace_eq_copy_mesh : forall m a b k ref,
+  wf_region (reg m) -> (forall ns, In ns (subs m) -> wf_region (snd ns)) ->
+  mesh_rotate90 true m a b k ref = mesh_rotate90 false m a b k ref.
+Proof. exact mesh_inplace_eq_copy. Qed.
+Print Assumptions C12_inplace_eq_copy_mesh.
+
+Theorem C12_inplace_eq_copy_field : forall K (f : field K) a b k ref,
+  wf_region (reg (fmesh f)) -> (forall ns, In ns (subs (fmesh f)) -> wf_region (snd ns)) ->
+  field_rotate90 K true f a b k ref = field_rotate90 K false f a b k ref.
+Proof. exact field_inplace_eq_copy. Qed.
+Print Assumptions C12_inplace_eq_copy_field.
